@@ -1,0 +1,95 @@
+//go:build verif
+// +build verif
+
+package xmpp
+
+// Verification hooks (build tag "verif" only): exported wrappers around unexported
+// functions and fields so that an external harness can drive them. Add-only; no
+// existing code is modified and nothing here is compiled without the tag.
+
+import (
+	"encoding/xml"
+	"io"
+	"time"
+
+	"gosrc.io/xmpp/stanza"
+)
+
+func VerifEnsurePort(addr string, port int) string { return ensurePort(addr, port) }
+
+func VerifBackoffDefaults() (base, factor, cap int) { return defaultBase, defaultFactor, defaultCap }
+
+// VerifBackoffSeq returns the first n values of duration() on a fresh backoff.
+func VerifBackoffSeq(noJitter bool, base, factor, cap, n int) []time.Duration {
+	b := backoff{NoJitter: noJitter, Base: base, Factor: factor, Cap: cap}
+	out := make([]time.Duration, 0, n)
+	for i := 0; i < n; i++ {
+		out = append(out, b.duration())
+	}
+	return out
+}
+
+// VerifBackoffSeqReset: k calls of duration(), reset(), then n calls.
+func VerifBackoffSeqReset(noJitter bool, base, factor, cap, k, n int) []time.Duration {
+	b := backoff{NoJitter: noJitter, Base: base, Factor: factor, Cap: cap}
+	for i := 0; i < k; i++ {
+		b.duration()
+	}
+	b.reset()
+	out := make([]time.Duration, 0, n)
+	for i := 0; i < n; i++ {
+		out = append(out, b.duration())
+	}
+	return out
+}
+
+// VerifBackoffForAttempt queries durationForAttempt(attempt) on a fresh backoff.
+func VerifBackoffForAttempt(noJitter bool, base, factor, cap, attempt int) time.Duration {
+	b := backoff{NoJitter: noJitter, Base: base, Factor: factor, Cap: cap}
+	return b.durationForAttempt(attempt)
+}
+
+func VerifRoute(r *Router, s Sender, p stanza.Packet) { r.route(s, p) }
+
+func VerifKeepalive(t Transport, interval time.Duration, quit <-chan struct{}) {
+	keepalive(t, interval, quit)
+}
+
+func VerifSetTransport(c *Client, t Transport) { c.transport = t }
+func VerifTransport(c *Client) Transport       { return c.transport }
+
+// VerifSetSession installs a session bound to the client's current transport.
+func VerifSetSession(c *Client, sm SMState) {
+	c.Session = &Session{transport: c.transport, SMState: sm}
+}
+
+func VerifRecv(c *Client, keepaliveQuit chan<- struct{}) { c.recv(keepaliveQuit) }
+
+func VerifComponentSetTransport(c *Component, t Transport) { c.transport = t }
+func VerifComponentRecv(c *Component)                      { c.recv() }
+func VerifComponentHandshake(c *Component, streamID string) string {
+	return c.handshake(streamID)
+}
+
+func VerifNewSession(c *Client) (*Session, error) { return NewSession(c, SMState{}) }
+
+func VerifAuthSASL(rw io.ReadWriter, d *xml.Decoder, f stanza.StreamFeatures, user string, cr Credential) error {
+	return authSASL(rw, d, f, user, cr)
+}
+
+func (c *Config) VerifSetSMResume(b bool) { c.streamManagementResume = b }
+
+func VerifStreamLogger(conn io.ReadWriter, log io.Writer) io.ReadWriter {
+	return newStreamLogger(conn, log)
+}
+
+// VerifTransportSecureFlag reports XMPPTransport.isSecure without going through IsSecure.
+func VerifTransportSecureFlag(t Transport) bool {
+	if x, ok := t.(*XMPPTransport); ok {
+		return x.isSecure
+	}
+	return t.IsSecure()
+}
+
+func VerifConnState(em *EventManager) ConnState { return em.CurrentState.getState() }
+func VerifEventState(e Event) ConnState         { return e.State.state }
